@@ -80,6 +80,7 @@ pub enum K {
     CuckooToPerm,
     DecomposeSwitch,
     DupSwap,
+    SortWide,
 }
 
 #[derive(Clone, Debug, Serialize, Deserialize, PartialEq, Eq, Hash)]
@@ -704,14 +705,23 @@ impl<'a> Builder<'a> {
                 };
                 g.truncate(pool.nodes[ia].clone(), scale).ok().map(|n| pool.push(n))
             }
-            K::Sort | K::SortSmall => {
+            K::Sort | K::SortSmall | K::SortWide => {
                 // key column: a rank-2 BIT array [n,b]; payload: arrays with the same first dimension
-                let want = if s.k == K::SortSmall {
+                let want = if s.k == K::SortWide {
+                    // two rows, key of 5 or 6 bits: the radix loop (2-bit chunks) runs more than once
+                    array_type(vec![2, 5 + (s.p[2] % 2) as u64], BIT)
+                } else if s.k == K::SortSmall {
                     array_type(vec![2 + (s.p[1] % 2) as u64, 1 + (s.p[2] % 2) as u64], BIT)
                 } else {
                     array_type(vec![2 + (s.p[1] % 4) as u64, 1 + (s.p[2] % 6) as u64], BIT)
                 };
-                let ik = self.partner(pool, s.a, s.p[0], seed, &want, &|t: &Type| {
+                let mode = if s.k == K::SortWide { 2 } else { s.p[0] };
+                let want2 = want.clone();
+                let wide = s.k == K::SortWide;
+                let ik = self.partner(pool, s.a, mode, seed, &want, &|t: &Type| {
+                    if wide {
+                        return *t == want2;
+                    }
                     t.is_array() && leaf_st(t) == BIT && shape_of(t).len() == 2 && shape_of(t)[1] <= 12 && shape_of(t)[0] <= 8
                 })?;
                 let n = shape_of(&pool.types[ik])[0];
